@@ -27,6 +27,8 @@ def run(project, rep):
     rep.run(V.v_r8_token_tables, project, rep)
     rep.rule("V-R12", "every declared child has a storage slot of its own (S-R9): children sharing one descriptor object read and write one value")
     rep.run(S.s_r9_own_descriptor, schema, rep)
+    from .. import rules_unknown as U
+    rep.run(U.u_r9_overrides_only_retag, schema, rep)
     from .. import rules_types as T
     rep.run(T.t_r7, project, rep)
     rep.run(T.t_r6b_no_context_arithmetic, project, rep)
